@@ -76,6 +76,10 @@ def oas(cov: np.ndarray, n: float, D: int) -> np.ndarray:
     tr = np.trace(cov)
     tr2 = tr**2
     tr_cov2 = np.trace(cov**2)
-    phi = ((1 - 2 / D) * tr_cov2 + tr2) / ((n + 1 - 2 / D) * tr_cov2 - tr2 / D)
+    denominator = (n + 1 - 2 / D) * tr_cov2 - tr2 / D
+    if denominator > 0:
+        phi = min(1.0, ((1 - 2 / D) * tr_cov2 + tr2) / denominator)
+    else:
+        phi = 1.0
 
     return (1 - phi) * cov + phi * np.eye(D) * tr / D
